@@ -454,7 +454,7 @@ V("c17-benign-guides-join-extra", "C17", SY, '            guides_text = Text("\\
 V("c10-console-exit-conditional", "C10", "rich/console.py", '        """Exit buffer context."""\n        self._exit_buffer()\n', '        """Exit buffer context."""\n        if exc_type is None:\n            self._exit_buffer()\n', "R10.12")
 V("c10-status-update-truthy", "C10", "rich/status.py", "        if speed is not None:\n            self.speed = speed\n", "        if speed:\n            self.speed = speed\n", "R10.13")
 V("c05-render-dedup-stack", "C05", "rich/text.py", "            styles = tuple(style_map[_style_id] for _style_id in sorted(stack))\n", "            styles = tuple(style_map[_style_id] for _style_id in sorted(set(stack)))\n", "R5.13")
-V("c05-render-unsorted-stack", "C05", "rich/text.py", "            styles = tuple(style_map[_style_id] for _style_id in sorted(stack))\n", "            styles = tuple(style_map[_style_id] for _style_id in stack)\n", "R5.4")
+V("c05-render-unsorted-stack", "C05", "rich/text.py", "            styles = tuple(style_map[_style_id] for _style_id in sorted(stack))\n", "            styles = tuple(style_map[_style_id] for _style_id in stack)\n", "R5.13")
 V("c19-sgr-params-any", "C19", "rich/ansi.py", r'(?:\x1b\[([0-?]*)m)', r'(?:\x1b\[(.*?)m)', "R19.13")
 V("c19-sgr-params-not-m", "C19", "rich/ansi.py", r'(?:\x1b\[([0-?]*)m)', r'(?:\x1b\[([^m]*)m)', "R19.13")
 V("c19-benign-sgr-params-digits", "C19", "rich/ansi.py", r'(?:\x1b\[([0-?]*)m)', r'(?:\x1b\[([0-9;:]*)m)', None)
